@@ -665,6 +665,61 @@ func (pf *parserFacts) checkBounds(typ, field string) []boundResult {
 			fn := fs.Store.Parent()
 			n, all := 0, true
 			var w2 string
+			// `cfg.V = raw` followed by `if cfg.V == k { cfg.V = d }` on the way to every success return: raw == k never
+			// reaches the result, so raw only has to be in range or equal to k
+			lo2, hi2 := r.lo, r.hi
+			if fa, isFA := fs.Store.Addr.(*ssa.FieldAddr); isFA {
+				if root, path := fieldPathOf(fa); root != nil {
+					for _, s2 := range storesToPath(root, path) {
+						k2, isK := s2.Val.(*ssa.Const)
+						if s2 == fs.Store || !isK || k2.Value == nil || k2.Value.Kind() != constant.Int || k2.Int64() < r.lo || k2.Int64() > r.hi {
+							continue
+						}
+						for _, a := range pf.view(fn).GuardsAt(s2.Block()) {
+							if a.Instr == nil || !a.Taken {
+								continue
+							}
+							bo, isBO := a.Instr.Cond.(*ssa.BinOp)
+							if !isBO || bo.Op != token.EQL {
+								continue
+							}
+							kc, isKC := bo.Y.(*ssa.Const)
+							ld, isLd := bo.X.(*ssa.UnOp)
+							if !isKC || !isLd || kc.Value == nil || kc.Value.Kind() != constant.Int {
+								continue
+							}
+							lfa, isLFA := ld.X.(*ssa.FieldAddr)
+							if !isLFA {
+								continue
+							}
+							if r2, p2 := fieldPathOf(lfa); r2 != root || fmt.Sprint(p2) != fmt.Sprint(path) {
+								continue
+							}
+							gb := a.Instr.Block()
+							if !fs.Store.Block().Dominates(gb) {
+								continue
+							}
+							onEveryWay := true
+							for _, b := range fn.Blocks {
+								if ret, isRet := b.Instrs[len(b.Instrs)-1].(*ssa.Return); isRet && b != fn.Recover && len(ret.Results) > 0 {
+									if k, isK := ret.Results[len(ret.Results)-1].(*ssa.Const); isK && k.Value == nil && !gb.Dominates(b) {
+										onEveryWay = false
+									}
+								}
+							}
+							if !onEveryWay {
+								continue
+							}
+							switch kc.Int64() {
+							case r.lo - 1:
+								lo2 = r.lo - 1
+							case r.hi + 1:
+								hi2 = r.hi + 1
+							}
+						}
+					}
+				}
+			}
 			for _, b := range fn.Blocks {
 				ret, isRet := b.Instrs[len(b.Instrs)-1].(*ssa.Return)
 				if !isRet || b == fn.Recover || len(ret.Results) == 0 {
@@ -677,7 +732,7 @@ func (pf *parserFacts) checkBounds(typ, field string) []boundResult {
 					continue
 				}
 				n++
-				if ok2, why2 := pf.proveRange(fs.Val, b, r.lo, r.hi, 0); !ok2 {
+				if ok2, why2 := pf.proveRange(fs.Val, b, lo2, hi2, 0); !ok2 {
 					all = false
 				} else {
 					w2 = why2
